@@ -38,6 +38,20 @@ Premises that the property text does not state, named here and in the manifest:
   admissibility proof compares with *all* walks, hence the premise on every edge.
 * a route being returned at all: see `config_dijkstra_least_cost_route_returned` (schedule existence
   and termination, `Proofs/SearchTermination.lean`).
+* **outside every theorem** (ordered fields have no +∞, NaN, overflow or underflow), tied by the
+  correspondence run only — the oracles are silent on such cases: a tentative cost of +∞ (an
+  overflowing sum) or NaN never improves on a *missing* label: the code tests
+  `tentative < Cost::INFINITY`, the model `improves tent none = Lit.belowInf tent`, constantly true in
+  an ordered field (`LawfulLit.belowInf_eq`, so no statement here changed) and the IEEE test at
+  `Float`.  One generated case in six is pushed where the plain generator never goes (lengths,
+  speeds, weights, rates, delays, initial values, weight factors, vehicle limits of 0, −0, negative,
+  1e308, ±∞, NaN, subnormal; limits at the ends of `u64` / `usize`);
+* **modelled rather than verified — the NaN-free domain**: the code orders `Cost`, `Distance`,
+  `Weight`, `Speed` by `OrderedFloat`'s total order (NaN the greatest number, NaN = NaN), the model by
+  IEEE `<` / `≤`.  They differ only on NaN operands (`push_increase` against a NaN priority; a NaN
+  vehicle-restriction limit; `get_max_speed` of a table with a NaN), which no file or JSON document
+  can supply — the readers refuse NaN — and which the extreme-value stream reaches only through
+  values constructed in code, where model and code agreed on every generated case.
 -/
 import Compass.Proofs.SearchOpt
 import Compass.Proofs.SearchRoute
@@ -510,7 +524,7 @@ example : ∃ sched r route, sched.length ≤ 6 ∧ exC0.runVertex 0 (some 3) sc
       (route.map (fun b => b.access + b.traversal)).sum ≤ cost exC0.costOf es := by
   have W : exC0.WellFormedDistance .meters :=
     ⟨exC_wellFormed.trav, exC_wellFormed.noAccess, exC_wellFormed.noTurn, exC_wellFormed.slot,
-      exC_wellFormed.cost_range, exC_wellFormed.frontier_total⟩
+      exC_wellFormed.cost_range, exC_wellFormed.frontier_total, exC_wellFormed.gc_nonneg⟩
   have G : exC0.GraphOK 0 true :=
     ⟨(exC_graphOK 0 (by decide) true).adj, (exC_graphOK 0 (by decide) true).inc_range,
       (exC_graphOK 0 (by decide) true).gc_source, (exC_graphOK 0 (by decide) true).gc_range⟩
